@@ -63,10 +63,13 @@ def _shard(args):
             sim_rc, sim_err = 124, "sim did not finish within %d s (args: %s)" % (tmo, " ".join(str(a) for a in sim_args))
     t1 = time.time()
     with open(out) as fi:
-        q = subprocess.run([os.path.join(vlib.BUILD, "runner")], stdin=fi, stdout=subprocess.PIPE,
-                           stderr=subprocess.STDOUT, timeout=3000)
-    rout = q.stdout.decode("utf-8", "replace")
-    return dict(shard=i, seed=seed, sim_rc=sim_rc, sim_err=sim_err, run_rc=q.returncode, runner_out=rout,
+        try:
+            q = subprocess.run([os.path.join(vlib.BUILD, "runner")], stdin=fi, stdout=subprocess.PIPE,
+                               stderr=subprocess.STDOUT, timeout=max(3 * tmo, 1800))
+            run_rc, rout = q.returncode, q.stdout.decode("utf-8", "replace")
+        except subprocess.TimeoutExpired:
+            run_rc, rout = 124, "model replay did not finish within %d s" % max(3 * tmo, 1800)
+    return dict(shard=i, seed=seed, sim_rc=sim_rc, sim_err=sim_err, run_rc=run_rc, runner_out=rout,
                 sim_s=t1 - t0, run_s=time.time() - t1, path=out)
 
 def run(ctx, flavour="static"):
@@ -79,7 +82,7 @@ def run(ctx, flavour="static"):
         return json.load(open(summ))
     os.makedirs(cdir, exist_ok=True)
     if tier == "thorough":
-        shards, hist, maxn, steps = 16, 40, 10, 400
+        shards, hist, maxn, steps = 16, 24, 9, 350
     elif tier == "escalate":
         # search for a concrete failing input after a broken correspondence: between the two tiers (minutes, not half an hour)
         shards, hist, maxn, steps = 16, 12, 8, 300
@@ -98,7 +101,7 @@ def run(ctx, flavour="static"):
             shards, hist, maxn, steps = t[0], max(q[1], t[1] // 3), t[2], t[3]
     sim_args = ["-hist", hist, "-maxn", maxn, "-steps", steps] + FLAVOURS[flavour]
     # a changed tree can make a schedule wait for ever (e.g. "until 100 blocks were delivered"): the quick tier gives a shard 10 minutes
-    tmo = 3000 if tier == "thorough" else (1500 if tier == "escalate" else 600)
+    tmo = 4000 if tier == "thorough" else (1500 if tier == "escalate" else 600)
     jobs = [(i, seed * 1000 + i, sim_args, os.path.join(cdir, "shard%02d.txt" % i), tmo) for i in range(shards)]
     with ThreadPoolExecutor(max_workers=16) as ex:
         res = list(ex.map(_shard, jobs))
